@@ -26,7 +26,7 @@ RULE = ("cases: (mode, load variant, n_models, package permutation); executions:
         "non-trivial = distinct (case, source) whose result has >= 2 rows")
 ASSUMPTIONS = ["finite value alphabets", "ties may be ordered either way"]
 REQUIRED_CLASSES = ['tied-chi2-duplicates', 'chi2>=1e30', 'tied-at-1e30', 'chi2==2e30', 'resolved-removal-moves-best-distance', 'n_models==1', 'n_models==8', 'permuted-package',
-                    'mode-2d', 'mode-3d', 'float32-path', 'dead-model']
+                    'mode-2d', 'mode-3d', 'float32-path', 'dead-model', 'near-tied-chi2']
 TIMEOUT = {'quick': 300, 'thorough': 1200}
 VARIANTS = [('v1', False), ('v2', True), ('v2', False)]
 BANDS = ['B1', 'B2', 'B3', 'B5']
@@ -82,6 +82,13 @@ def _grid(seed, n):
         f[1] = f[0]
     if n >= 5:
         f[4] = f[0]
+    # near-ties: a pure scaling of p0 (same chi^2 up to rounding in the 2-parameter mode) and a copy that differs
+    # in the 9th digit -- the ranking must be non-decreasing to the last bit, not only to single precision
+    if n >= 3:
+        f[2] = f[0] * 1.7
+    if n >= 8:
+        f[5] = f[0] * (1.0 + 3e-9 * np.array([1.0, -1.0, 1.0, -1.0]))
+        f[6] = f[0] * (1.0 - 2e-9 * np.array([1.0, 1.0, -1.0, -1.0])) * 0.31
     return f
 
 
@@ -120,8 +127,9 @@ def run_case(ctx, case, rec, d):
         spec = {'fmt': fmt, 'names': names, 'bands': BANDS, 'apertures': ap, 'tables': tphys[perm], 'logd_step': 0.15}
         md = fc.build_package(d, 'pkg', spec)
         dmin, dmax = 0.4, 6.0
-        fitters = [(fc.make_fitter(md, BANDS, 'power', (avlo, avhi), distance_range_kpc=(dmin, dmax), memmap=memmap), False),
-                   (fc.make_fitter(md, BANDS, 'power', (avlo, avhi), distance_range_kpc=(dmin, dmax), memmap=memmap, remove_resolved=True), True)]
+        dunit = ['kpc', 'pc', 'cm'][case['variant']]
+        fitters = [(fc.make_fitter(md, BANDS, 'power', (avlo, avhi), distance_range_kpc=(dmin, dmax), memmap=memmap, dunit=dunit), False),
+                   (fc.make_fitter(md, BANDS, 'power', (avlo, avhi), distance_range_kpc=(dmin, dmax), memmap=memmap, remove_resolved=True, dunit=dunit), True)]
         prob, grid = fc.judge_grid(fitters[0][0], dmin, dmax, 0.15)
         if prob:
             rec.violation('grid|%s' % prob.split(':')[0], {}, {'problem': prob})
@@ -200,6 +208,8 @@ def run_case(ctx, case, rec, d):
             rec.outcome(tuple(np.round(np.minimum(ch, 1e300), 4)))
             if n >= 2 and ch[perm.index(0)] == ch[perm.index(1)]:
                 rec.cls('tied-chi2-duplicates')
+            if n >= 3 and mode == '2d' and ch[perm.index(2)] != ch[perm.index(0)] and abs(ch[perm.index(2)] - ch[perm.index(0)]) <= 1e-7 * abs(ch[perm.index(0)]):
+                rec.cls('near-tied-chi2')
             big = ch[(ch >= 1e30) & np.isfinite(ch)]
             if len(big):
                 rec.cls('chi2>=1e30')
